@@ -228,3 +228,60 @@ def self_check():
                     overlaps.append((n1, n2))
         s.pop()
     return overlaps, queries
+
+
+def fields_arith(fmt, f):
+    """Field extraction using only + - * // % (stays symbolic under CrossHair; no bit ops)."""
+    def g(x):  # 6-bit general operand
+        return ("g", x // 8 % 8, x % 8)
+    if fmt in ("dst", "fdst"):
+        return [g(f)]
+    if fmt == "ss_dd":
+        return [g(f // 64), g(f % 64)]
+    if fmt == "r_dd":
+        return [("r", f // 64 % 8), g(f % 64)]
+    if fmt == "ss_r":
+        return [g(f % 64), ("r", f // 64 % 8)]
+    if fmt == "r":
+        return [("r", f % 8)]
+    if fmt == "br":
+        d = f % 256
+        return [("disp", 2 * d - 512 * (d // 128))]
+    if fmt == "sob":
+        return [("r", f // 64 % 8), ("disp", -2 * (f % 64))]
+    if fmt in ("n8", "n6", "n3"):
+        return [("n", f)]
+    if fmt in ("fsrc_ac", "src_ac"):
+        return [g(f % 64), ("ac", f // 64 % 4)]
+    if fmt in ("ac_fdst", "ac_dst"):
+        return [("ac", f // 64 % 4), g(f % 64)]
+    return []
+
+
+def decode_as(name, w):
+    """Is word ``w`` (possibly symbolic) an encoding of ``name``'s class?  -> fields or None.
+
+    Sound as a decoder because the table is unambiguous (self_check): a word inside the
+    range of one class belongs to no other class of equal or higher specificity.
+    """
+    base, fmt, _ = T[name]
+    size = 1 << FIELD_BITS[fmt]
+    if not (base <= w < base + size):
+        return None
+    return fmt, fields_arith(fmt, w - base)
+
+
+def consistency_check():
+    """decode_word (bit operations, concrete) and decode_as/fields_arith (arithmetic) agree on all 65536 words."""
+    bad = 0
+    n = 0
+    for w in range(65536):
+        d = decode_word(w)
+        if d is None:
+            continue
+        names, fmt, fields = d
+        r = decode_as(names[0], w)
+        n += 1
+        if r is None or list(map(tuple, r[1])) != list(map(tuple, fields["ops"])):
+            bad += 1
+    return n, bad
